@@ -285,7 +285,7 @@ func account(c *rig.Check, cs caseSpec, cr caseResult) {
 	for n, v := range cr.HookHits {
 		c.Count("hook_hits:"+n, v)
 	}
-	if cs.Scen == "idle" && cr.PredictedClose != "" {
+	if cs.Scen == "idle" && cr.PredictedClose != "" && cr.HookHits["swamp.closeListener.afterRead"] > 0 {
 		// self-check of the tick arithmetic: while the recorder was installed (until the racers had
 		// returned) the listener may have decided to close only on the predicted tick (or not at all,
 		// when a racer refreshed the last-interaction time first)
@@ -309,6 +309,12 @@ func account(c *rig.Check, cs caseSpec, cr caseResult) {
 	}
 	if cr.Inconclusive != "" {
 		c.Inconclusive(cr.Inconclusive)
+		if p := os.Getenv("C16_DEBUG"); strings.HasPrefix(p, "/") { // development aid
+			if f, err := os.OpenFile(p, os.O_APPEND|os.O_CREATE|os.O_WRONLY, 0o644); err == nil {
+				fmt.Fprintf(f, "INCONCLUSIVE %s: %s\n  case %s  hist %s\n  notes %s\n", cs.Name, cr.Inconclusive, rig.Dump(cs), rig.Dump(cr.Hist), strings.Join(cr.Notes, "\n"))
+				f.Close()
+			}
+		}
 		return
 	}
 	bySig := map[string][]finding{}
